@@ -13,12 +13,12 @@ RULE = ('geodetic inputs lat -90..90 (exactly 0, +-0.0, +-90, +-1e-12), lon -360
         'random ellipsoids, float and angle-object arguments, functional and CoordGeo/CoordCart API: llh2xyz against the closed '
         'form (prime-vertical radius of that ellipsoid) within 1 um; Cartesian inputs generated from geodetic ones and directly in '
         'all octants with distance from the axis 1e-9..4e7 m: xyz2llh result mapped back by the closed form within 0.02 mm, '
-        'longitude in [-180,180].  distinct = ellipsoid x |lat| class x height decade x axis-distance decade x argument type x api')
+        'longitude in [-180,180].  a surface point followed by points on the same geocentric ray at other heights; 3 % of the cases are preceded by calls the property does not speak about (latitudes beyond the poles, NaN, inf, strings, None, the geocentre): not judged, exceptions swallowed, the judged call after them must be as right as ever.  distinct = ellipsoid x |lat| class x height decade x axis-distance decade x argument type x api')
 ASSUMPTIONS = ['closed form x=(nu+h)cos(lat)cos(lon), y=(nu+h)cos(lat)sin(lon), z=(nu(1-e^2)+h)sin(lat), nu=a/sqrt(1-e^2 sin^2 lat), '
                'evaluated in float64 with exact quadrant handling (checked against mpmath on a sample each shard)']
 N = {'quick': 4000, 'thorough': 60000}
 SHARDS = {'quick': 16, 'thorough': 32}
-REQUIRED_COUNTERS = ['alias_sequences', 'branch:llh2xyz-equator-test', 'forward_judged', 'inverse_judged', 'equator_exact', 'pole_exact', 'near_axis']
+REQUIRED_COUNTERS = ['same_ray_sequences', 'unjudged_calls_before_a_judged_one', 'alias_sequences', 'branch:llh2xyz-equator-test', 'forward_judged', 'inverse_judged', 'equator_exact', 'pole_exact', 'near_axis']
 
 
 def plan(tier, seed):
@@ -123,11 +123,48 @@ def gen_case(rnd):
     return {'mode': 'cart', 'ell': ell, 'x': x, 'y': y, 'z': z, 'api': 'coord' if rnd.random() < 0.1 else 'func'}
 
 
+def ray_sequence(rnd):
+    """A point on the ellipsoid (h = 0) followed by points on the same geocentric ray at other heights (a mark and
+    the satellite geocentrically above it), at the same or another longitude: for the second point the first guess of the
+    latitude iteration coincides with the first point's final latitude."""
+    ell = rand_ell(rnd)
+    a, invf = tmwork.ell_published(ell)
+    f = 1.0 / invf
+    e2 = f * (2 - f)
+    lat = rnd.uniform(-89.5, 89.5)
+    lon = rnd.uniform(-180, 180)
+    nu = a / math.sqrt(1 - e2 * math.sin(math.radians(lat)) ** 2)
+    p = nu * math.cos(math.radians(lat))
+    z = nu * (1 - e2) * math.sin(math.radians(lat))
+    out = [{'mode': 'geo', 'ell': ell, 'lat': lat, 'lon': lon, 'h': 0.0, 'argt': 'float', 'api': 'func', 'kind': 'ray-foot'}]
+    for _ in range(rnd.choice([1, 2])):
+        k = rnd.choice([1.0 + 10 ** rnd.uniform(-6, -2), rnd.uniform(1.01, 6.5), 4.1646, 1.0 - 10 ** rnd.uniform(-6, -3)])
+        lon2 = lon if rnd.random() < 0.5 else rnd.uniform(-180, 180)
+        out.append({'mode': 'cart', 'ell': ell, 'x': k * p * math.cos(math.radians(lon2)), 'y': k * p * math.sin(math.radians(lon2)),
+                    'z': k * z, 'api': 'func', 'kind': 'same-ray'})
+    return out
+
+
 def _dec(v):
     return int(math.floor(math.log10(abs(v)))) if v else -99
 
 
+def gen_unjudged_calls(rnd):
+    out = []
+    for _ in range(rnd.choice([1, 1, 2])):
+        ell = rnd.choice(['grs80', 'ans', 'wgs84', [6378200.0, 299.5]])
+        if rnd.random() < 0.5:
+            out.append({'fn': 'llh2xyz', 'args': [rnd.choice([95.0, -91.0, float('nan'), 'x', None, 1e308]), rnd.choice([400.0, float('nan'), 10.0]),
+                                                  rnd.choice([0.0, float('inf'), 'h', -7e6])], 'ell': ell})
+        else:
+            out.append({'fn': 'xyz2llh', 'args': [rnd.choice([0.0, float('nan'), 'x', 1e308, 3.0]), rnd.choice([0.0, float('nan'), 4.0]),
+                                                  rnd.choice([0.0, 6.4e6, float('inf'), -6.3e6])], 'ell': ell})
+    return out
+
+
 def judge(ns, ctx, case):
+    for call in case.get('before') or ():
+        core.unjudged(ctx, getattr(ns.convert, call['fn']), *call['args'], tmwork.ell_obj(ns, call['ell']))
     ell = tmwork.ell_obj(ns, case['ell'])
     a, invf = tmwork.ell_published(case['ell'])
     en = case['ell'] if isinstance(case['ell'], str) else 'custom-ell'
@@ -233,6 +270,8 @@ def run_shard(spec, ctx):
     try:
         for i in range(spec['n']):
             case = gen_case(rnd)
+            if rnd.random() < 0.03:
+                case['before'] = gen_unjudged_calls(rnd)
             if i < 2:
                 ctx.sample(case)
             judge(ns, ctx, case)
@@ -244,6 +283,10 @@ def run_shard(spec, ctx):
                 if 6.3e6 <= a2 <= 6.4e6:
                     judge(ns, ctx, c2)
                     ctx.count('alias_sequences')
+            if rnd.random() < 0.12:
+                for c3 in ray_sequence(rnd):
+                    judge(ns, ctx, c3)
+                ctx.count('same_ray_sequences')
     finally:
         reach.stop()
     ctx.info['lines_reached'] = reach.summary()
